@@ -247,6 +247,14 @@ class Input(ContextManager["Input"]):
             return self._send(timeout)
 
     def _send(self, timeout: Union[float, int, None]) -> Union[None, str, events.Event]:
+        t0 = time.time()
+
+        def keep_waiting() -> Union[None, str, events.Event]:
+            """only the start of a keypress has arrived: wait out the timeout for the rest"""
+            return self._send(
+                None if timeout is None else max(0, timeout - (time.time() - t0))
+            )
+
         def find_key() -> Optional[str]:
             """Returns keypress identified by adding unprocessed bytes or None"""
             current_bytes = []
@@ -269,8 +277,9 @@ class Input(ContextManager["Input"]):
                         )
                 if e is not None:
                     return e
-            if current_bytes:  # incomplete keys shouldn't happen
-                raise ValueError("Couldn't identify key sequence: %r" % current_bytes)
+            # the start of a keypress whose other bytes have not arrived yet:
+            # keep it for the next read
+            self.unprocessed_bytes[:0] = current_bytes
             return None
 
         if self.sigints:
@@ -335,13 +344,12 @@ class Input(ContextManager["Input"]):
                     self._nonblocking_read()  # may need to read to get the rest of a keypress
                 e = find_key()
                 if e is None:
-                    return paste
+                    return paste if paste.events else keep_waiting()
                 else:
                     paste.events.append(e)
         else:
             e = find_key()
-            assert e is not None
-            return e
+            return e if e is not None else keep_waiting()
 
     def _nonblocking_read(self) -> int:
         """Returns the number of characters read and adds them to self.unprocessed_bytes"""
